@@ -11,6 +11,7 @@ mod colfmt;
 mod decode;
 mod exec;
 mod expr;
+mod faults;
 mod gen;
 mod hist;
 mod oracle;
